@@ -9,6 +9,7 @@ import (
 	"math"
 	"math/big"
 	"sync/atomic"
+	"time"
 
 	"github.com/iotaledger/iota.go/consts"
 	"github.com/iotaledger/iota.go/trinary"
@@ -73,6 +74,12 @@ func runC12Scripted(c *core.Ctx, nontriv *atomic.Int64) bool {
 	c.Set("scripted_score_digests", int64(len(hashes)))
 
 	// ---- scripted batches through Mine: lane states at batch 0 and batch 3 ----
+	if !powIntercepted(2) {
+		c.Set("scripted_part", "skipped: Mine does not hash through a package the overlay instruments")
+		return false
+	}
+	sweepCtx, sweepCancel := context.WithTimeout(context.Background(), 45*time.Minute)
+	defer sweepCancel()
 	cfgs := c12Configs(false)
 	step := 7
 	if c.Thorough() {
@@ -114,34 +121,48 @@ func runC12Scripted(c *core.Ctx, nontriv *atomic.Int64) bool {
 		for _, B0 := range []int{0, 3} {
 			for _, lane := range []int{0, 63, 17} {
 				for a := range cl {
+					// the scripted hash as a function of the hashed nonce n: nonce 64*B0+lane has the hash under test, every
+					// nonce from block B0+2 on has hash integer 1 (qualifies for every target), all others the background
 					var lanes [64][243]int8
 					for j := range lanes {
-						lanes[j] = cl[bg].tr
+						lanes[j] = cl[a].tr
 					}
-					lanes[lane] = cl[a].tr
-					l0, h0 := c12Planes(&lanes)
+					la, ha := c12Planes(&lanes)
 					for j := range lanes {
 						lanes[j] = cl[bg].tr
 					}
 					lu, hu := c12Planes(&lanes)
 					var zero [243]int8
 					for j := range lanes {
-						lanes[j] = zero // hash integer 1: qualifies for every target
+						lanes[j] = zero
 					}
 					lq, hq := c12Planes(&lanes)
-					vbct.Script = func(batch int, _ []trinary.Trits, l, h *[consts.HashTrinarySize]uint) {
-						switch {
-						case batch == B0:
-							*l, *h = l0, h0
-						case batch > B0+1:
-							*l, *h = lq, hq // stop the search: everything qualifies
-						default:
-							*l, *h = lu, hu
+					vbct.Script = func(_ int, src []trinary.Trits, l, h *[consts.HashTrinarySize]uint) {
+						var mA, mQ uint
+						for j := range src {
+							n, ok := powDecodeNonce(src[j])
+							switch {
+							case !ok:
+							case n == uint64(64*B0+lane):
+								mA |= 1 << uint(j)
+							case n/64 > uint64(B0+1):
+								mQ |= 1 << uint(j)
+							}
+						}
+						mU := ^(mA | mQ)
+						for i := range l {
+							l[i] = la[i]&mA | lq[i]&mQ | lu[i]&mU
+							h[i] = ha[i]&mA | hq[i]&mQ | hu[i]&mU
 						}
 					}
 					var nonce uint64
 					var err error
-					p := core.Catch(func() { nonce, err = powv2.New(1).Mine(context.Background(), data, cfg.t) })
+					p := core.Catch(func() { nonce, err = powv2.New(1).Mine(sweepCtx, data, cfg.t) })
+					if sweepCtx.Err() != nil {
+						c.CapHit()
+						vbct.Script = nil
+						return false
+					}
 					vsched.PassThroughWait()
 					gp := vsched.PassThroughPanics()
 					c.Eval(1)
